@@ -454,10 +454,40 @@ let c20 (payload : string) : string =
     String.trim (Buffer.contents buf) ^ " | classes=" ^ String.concat "," sizes
   | _ -> c04 payload
 
+(* ---------------- C15 / C19: ingresses ---------------- *)
+let c15 (payload : string) : string =
+  (* ing <ingress> <cfg 4 bits> <token> <hb ow> <malformed> <target> <h> <C> <dec> *)
+  match split_on ' ' payload with
+  | ["ing"; ing; cfg; tok; flags; mal; target; h; c; dec] ->
+    let b ch = (ch = '1') in
+    let icfg = { ic_accept_veto = b cfg.[0]; ic_postread = b cfg.[1]; ic_auth = b cfg.[2]; ic_precall = b cfg.[3] } in
+    let q = { q_seq = N0; q_path = nat_of_int 1; q_meth = nat_of_int 1; q_ser = n_of_int 1;
+              q_hb = b flags.[0]; q_oneway = b flags.[1]; q_args = nat_of_int 1 } in
+    let rq = { i_token = (match tok with "missing" -> TokMissing | "wrong" -> TokWrong | _ -> TokRight);
+               i_malformed = (mal = "1"); i_q = q } in
+    let find _ _ = (match target with "nosvc" -> TNoService | "nometh" -> TNoMethod | "func" -> TFunction | _ -> TMethod) in
+    let handler _ _ a = (match h with "r" -> HReply a | "f" -> HFail (nat_of_int 7) | _ -> HPanic (nat_of_int 7)) in
+    let res = serve find (fun _ -> true) (fun _ _ -> dec = "1") handler
+        (match ing with "native" -> Native | "gateway" -> Gateway | _ -> JsonRpc) icfg rq in
+    let out = (match res.o_out with
+      | IResult _ -> "result:" ^ c
+      | IError None -> "error:reject"
+      | IError (Some (XExact _)) -> (if b cfg.[3] then "error:reject" else "error:text")
+      | IError (Some (XPanic _)) -> "error:panic"
+      | IError (Some (XPanicExact _)) -> "error:text"
+      | IError (Some (XNoService _)) -> "error:nosvc"
+      | IError (Some (XNoMethod _)) -> "error:nometh"
+      | IError (Some (XDecode _)) -> "error:decode"
+      | IError (Some (XNoCodec _)) -> "error:nocodec"
+      | IEcho -> "echo" | INothing -> "nothing") in
+    Printf.sprintf "%s closed=%s inv=%d" out (if res.o_closed then "1" else "0") (List.length res.o_invoked)
+  | _ -> "bad"
+
 let () =
   let prop = Sys.argv.(1) in
   let f = match prop with
     | "C12" -> c12
+    | "C15" | "C19" -> c15
     | "C20" -> c20
     | "C04" | "C07" -> c04
     | "C14" -> c14
